@@ -1,6 +1,7 @@
 package checks
 
 import (
+	"bytes"
 	"fmt"
 	"math/rand"
 	"regexp"
@@ -169,6 +170,15 @@ func C13() int {
 	wantsA = append(wantsA, want{}, want{"REDACTED", nil, "A/after-option-changes"})
 	scriptA = append(scriptA, sut.AgentCmd{"op": "poison_mapping", "names": sample[:2000]}, sut.AgentCmd{"op": "hash", "names": sample})
 	wantsA = append(wantsA, want{}, want{"REDACTED", nil, "A/poisoned-side-table"})
+	// the pseudonym depends on the name and the replacement only: not on --encrypt / the key
+	scriptA = append(scriptA, sut.AgentCmd{"op": "set", "encrypt": true, "key_b64": TestKeyB64}, sut.AgentCmd{"op": "hash", "names": sample})
+	wantsA = append(wantsA, want{}, want{"REDACTED", nil, "A/encrypt-on-key-1"})
+	scriptA = append(scriptA, sut.AgentCmd{"op": "set", "encrypt": true, "key_b64": b64(bytes.Repeat([]byte{9}, 64))}, sut.AgentCmd{"op": "hash", "names": sample})
+	wantsA = append(wantsA, want{}, want{"REDACTED", nil, "A/encrypt-on-key-2"})
+	scriptA = append(scriptA, sut.AgentCmd{"op": "set", "encrypt": false, "key_b64": "", "numbers": true, "booleans": true, "ips": true, "namespaces": true}, sut.AgentCmd{"op": "hash", "names": sample})
+	wantsA = append(wantsA, want{}, want{"REDACTED", nil, "A/other-flags-on"})
+	scriptA = append(scriptA, sut.AgentCmd{"op": "set", "numbers": false, "booleans": false, "ips": false, "namespaces": false})
+	wantsA = append(wantsA, want{})
 	scriptA = append(scriptA, sut.AgentCmd{"op": "mapping_size"})
 	wantsA = append(wantsA, want{})
 
@@ -315,6 +325,39 @@ func C13() int {
 		c.Sample(map[string]any{"replacement": r, "name": names[nC], "pseudonym": get(nC), "first_component": names[idxOf[dotted[0][0]]], "its_pseudonym": get(idxOf[dotted[0][0]])})
 	}
 
+	// second-order names: a name that HAS the shape of a pseudonym (the tool's own output fed back,
+	// a field that stores a redacted name) is a name like any other
+	if tab := P["REDACTED"]; tab != nil {
+		var pp []string
+		for j := 0; j < 3000 && j < nC; j++ {
+			pp = append(pp, tab[(j*53)%nC][1:])
+		}
+		pp = append(pp, "REDACTED_0000000000000000", "REDACTED_ffffffffffffffff", "REDACTED_", "REDACTED")
+		recs, crashed, res, err := s.Agent([]sut.AgentCmd{{"op": "set", "replacement": "REDACTED"}, {"op": "hash", "names": pp}}, nil, 0)
+		if err != nil || crashed >= 0 || len(recs) != 2 {
+			c.Inconclusive("agent (second-order names): " + short(res.Stderr, 200))
+		} else {
+			o := strOuts(recs[1])
+			first := map[string]string{}
+			for j := 0; j < nC; j++ {
+				first[tab[j][1:]] = names[j]
+			}
+			form := regexp.MustCompile("^REDACTED_[0-9a-f]{16}$")
+			for k := range pp {
+				if k >= len(o) {
+					break
+				}
+				c.Count("pseudonym_shaped_names_checked", 1)
+				if !form.MatchString(o[k]) {
+					c.Violation("form|second-order", fmt.Sprintf("P(%q) = %q does not have the form <replacement>_<16 hex>", pp[k], o[k]), map[string]any{"name": pp[k]})
+				}
+				if other, dup := first[o[k]]; dup && other != pp[k] {
+					c.Violation("collision|second-order", fmt.Sprintf("P(%q) = P(%q) = %q: a name that looks like a pseudonym collides with an ordinary name", pp[k], other, o[k]), map[string]any{"a": pp[k], "b": other})
+				}
+			}
+		}
+	}
+
 	// CLI: pseudonyms visible in -w and -f output must be the in-process ones.
 	c13CLI(s, c, g, P["REDACTED"], names, nC)
 
@@ -376,8 +419,12 @@ func c13CLI(s *sut.SUT, c *ev.Check, g *gen.Gen, tab []string, names []string, n
 		linesW = append(linesW, mk(false))
 		linesF = append(linesF, mk(true))
 	}
-	for run := 0; run < 2; run++ {
-		ow := RunLines(s, Flags{W: true}, run, linesW)
+	for run := 0; run < 3; run++ {
+		fw := Flags{W: true}
+		if run == 2 {
+			fw.Enc = true // pseudonyms are the same whether or not values are encrypted
+		}
+		ow := RunLines(s, fw, run, linesW)
 		of := RunLines(s, Flags{F: "fdb"}, run, linesF)
 		for i, e := range exps {
 			if t, err := jt.ParseObject(ow[i].Out); err == nil {
